@@ -196,6 +196,7 @@ Step(e, p, newps, t) ==
      in_repeat |-> InRepeat(p), rec_size |-> RecSize(p), added_target |-> p.id = <<0, 0>>,
      target_form |-> IF p.id = <<0, 0>> THEN 0 ELSE OrigItem(p).form,
      target_named |-> p.id # <<0, 0>> /\ OrigItem(p).name # "",
+     target_uk_inf |-> p.id # <<0, 0>> /\ OrigItem(p).uk \in {"inf", "mil"},
      target_fix_in_parens |-> p.id # <<0, 0>> /\ OrigItem(p).fix /\ OrigItem(p).form \in {2, 5},
      rec_has_repeat |-> p.id # <<0, 0>> /\ \E i \in 1..Len(recs[p.id[1]]) : recs[p.id[1]][i].rep > 1]
 
